@@ -71,6 +71,12 @@ CHECKS = {
  "C14": ("proptest scrutinee-type and pattern-matrix generator; brute-force enumeration of the value space as reference for the compiler's structured diagnostics and for the executed match",
          "Exploration: 1500 (quick) / 40k (thorough) matches over bool, u8, enums (<= 4 variants, payloads), tuples/structs of these (<= 4096 values): 1-8 arms of literals, constructors, consts, nested tuple/struct patterns (any field order, `..`, shorthand), or-patterns, wildcards, bindings; built randomly, with a catch-all, or as a perturbed exact partition. MatchExpressionNonExhaustive iff some value is uncovered; every printed witness must parse, be of the scrutinee type and denote only uncovered values; an unreachable-arm warning on arm i iff no value has arm i as first match; a quarter of the cases also run (O0 and O1) on every value: the first matching arm (and its bound leaf) must be returned.",
          "u8 is the only integer scrutinee type; diagnostics are read from in-process compile_to_ast; ~0.2% of generated matrices with nested or-patterns are rejected by the type checker and counted.", "12/C14", "vp-sem"),
+ "C24": ("harness-owned schedules of the real ServerState (worker thread, channel, Notify) stepped through cfg hooks: pinned schedules + sleep-set DFS over 2-event scripts + proptest schedules; structural no-hang and no-lost-edit invariants",
+         "Exploration: 10 pinned + 300 DFS executions per 2-event script + 640 random schedules (quick) / 6000 + 30k (thorough): client scripts Open followed by 1-4 of Change vK / ChangeBroken / Save / Symbols (waits for parsing) / Open on a one-file no-std project; every actor (handlers, compilation worker incl. check_should_abort) stops at each hook point and the controller releases one step at a time, so an execution is a pure function of (script, choices). (a) when no transition is enabled every handler must have returned (hang detected structurally, not by timeout); (b) at quiescence the version markers in the compiled token map equal those of the server's document; (c) whoever requests a compilation has its document on disk.",
+         "Handlers interleave with each other only where a handler future returns Pending (tower-lsp polls them from one task); file I/O is not a yield point; <= 5 events; only [Open, Symbols] is enumerated exhaustively in quick. One recorded finding (Save drains a pending Change request and re-sends it unversioned) is attributed by a trace predicate and pinned.", "12/C24", "vp-lsp"),
+ "C26": ("proptest edit histories sent as incremental didChange to one long-lived real server vs. a fresh server per step; differential oracle on diagnostics, document symbols and token triples of the edited file",
+         "Exploration: 96 no-std + 4 std (quick) / 4000 + 120 (thorough) histories of 3-15 edits (insert/delete item, rename at definition and uses or definition only, add/remove struct field with uses, change body, introduce type/name/syntax errors, fix them, whitespace-only) over a generated three-module project, no-dependency LSP fixtures / e2e packages and a few std fixtures, with garbage collection on and off; after each change, once the worker has completed (counted through hooks), the edited file's diagnostics, symbols and (range, kind, name) tokens must equal those of a brand-new server opened on the same text.",
+         "Dead-code warnings and token kinds on `use` lines are masked (recorded findings), a gc-only failure on a multi-module project is attributed to a recorded GC finding when the identical history passes with gc off; steps whose text yields no program are skipped; only the edited file is decisive.", "12/C26", "vp-lsp"),
  "C27": ("proptest operation histories over std Vec/Bytes/String and operator tables for u8..u256/U128 math; Rust reference models (Vec, byte strings, num-bigint) predict logs and documented reverts",
          "Exploration: 24k interpreted + 360 literal histories + 100k numeric runs (quick) / 1.5M + 9k + 6M (thorough): histories of 1-40 operations (push/pop/insert/remove/set/swap/resize/clear/split_at/append incl. self-append/splice, conversions; indices biased to 0, len-1, len, len+1) over Vec<u64>/Vec<u8>/Vec<struct>/Bytes/String run both as literal scripts and through one pre-compiled interpreter script per kind; numeric tables for u8..u256 and U128 (+ - * / % pow sqrt log log2 shifts, checked/wrapping/overflowing forms, conversions) on boundary operands. The exact log sequence must equal the model's; an operation documented under '# Reverts' must revert exactly there, all others must not.",
          "Undocumented cases are excluded (log of 0 / base < 2, U128::sqrt(0), shifts >= width, capacity after growth, raw pointer constructors); revert codes are not compared.", "12/C27", "vp-ftest"),
